@@ -16,6 +16,7 @@ import (
 	"reflect"
 	"runtime"
 	"sort"
+	"strconv"
 	"strings"
 	"sync"
 	"sync/atomic"
@@ -270,6 +271,16 @@ func c01Serve(ctx context.Context, fn string, ins []interface{}, outs []interfac
 			*(outs[0].(*int32)) = ^a
 			*(ret.(*int32)) = a ^ c01BurstKey
 			return nil
+		}
+	}
+	if atomic.LoadInt32(&c01BurstOn) != 0 && fn == "fString" {
+		if a, ok := ins[0].(string); ok && len(a) >= 10 && a[:2] == "B!" {
+			if idx, err := strconv.Atoi(a[2:10]); err == nil && idx < len(c01BurstCounts) {
+				atomic.AddInt32(&c01BurstCounts[idx], 1)
+				*(outs[0].(*string)) = c01Reverse(a)
+				*(ret.(*string)) = a + "|" + a
+				return nil
+			}
 		}
 	}
 	f := c01FnByName[fn]
@@ -1066,6 +1077,11 @@ func c01Judge(cfg c01Cfg, k *c01Call, p *c01Prepared, o c01Outcome) {
 			return
 		}
 		wc, wm := tars.GetErrorCode(p.plan.err), p.plan.err.Error()
+		if te, ok := p.plan.err.(*tars.Error); ok && te.Code == 0 {
+			// code 0 is the protocol's success marker: the reply says "success" with an empty buffer and the proxy fails to decode the results
+			fail("error-code-zero", "reported-as-decode-error", "%s: the implementation failed with a tars.Error of code 0 (%q); the caller got code %d %q", k.Fn, wm, code, o.err.Error())
+			return
+		}
 		if wm == "" {
 			if code != wc {
 				fail("error-code", "empty-message", "%s: the implementation failed with code %d and an empty message; the caller got code %d %q", k.Fn, wc, code, o.err.Error())
@@ -1096,6 +1112,10 @@ func c01Judge(cfg c01Cfg, k *c01Call, p *c01Prepared, o c01Outcome) {
 		ms = append(ms, c01Map(m))
 	}
 	k.Res = fmt.Sprintf("(COk %s %s [%s])", ret, c01Vals(outs), strings.Join(ms, "; "))
+	if te, ok := p.plan.err.(*tars.Error); ok && te.Code == 0 {
+		fail("error-code-zero", "reported-as-success", "%s: the implementation failed with a tars.Error of code 0 (%q) but the caller got success", k.Fn, te.Message)
+		return
+	}
 	if p.plan.err != nil {
 		fail("error-lost", cfg.String(), "%s: the implementation failed with code %d %q but the caller got success", k.Fn, tars.GetErrorCode(p.plan.err), p.plan.err.Error())
 		return
@@ -1248,6 +1268,27 @@ func c01Probe(proxy *e2e.E2E) error {
 	return nil
 }
 
+func c01Reverse(s string) string {
+	b := []byte(s)
+	for i, j := 0, len(b)-1; i < j; i, j = i+1, j-1 {
+		b[i], b[j] = b[j], b[i]
+	}
+	return string(b)
+}
+
+// c01BurstText is the payload of string call idx: a tag carrying idx and 0..1500 bytes derived from idx (replies of
+// many different sizes share the server's and the client's buffers)
+func c01BurstText(idx int) string {
+	n := (idx * 37) % 1500
+	b := make([]byte, n)
+	x := uint32(idx)*2654435761 + 12345
+	for i := range b {
+		x = x*1664525 + 1013904223
+		b[i] = byte(x >> 24)
+	}
+	return fmt.Sprintf("B!%08d", idx) + string(b)
+}
+
 // c01RunBurst: g goroutines make n calls each of fInt(a, out o) with a payload no other call uses; every caller must
 // get the answer to its own payload (a reply routed to another caller, a lost reply, an implementation invoked twice
 // or never all show up), and the relay must have seen every request id once.
@@ -1279,6 +1320,21 @@ func c01RunBurst(proxy *e2e.E2E, g, n int) (fails []string) {
 			defer wg.Done()
 			<-start
 			for i := 0; i < n; i++ {
+				if gi%2 == 1 { // every other caller: strings of varying length, compared byte for byte
+					idx := gi*n + i
+					a := c01BurstText(idx)
+					var o string
+					r, err := proxy.FStringWithContext(context.Background(), a, &o)
+					switch {
+					case err != nil && strings.Contains(err.Error(), "timeout"):
+						note(&lost, "caller %d call %d (string payload %d): no reply: %v", gi, i, idx, err)
+					case err != nil:
+						note(&failed, "caller %d call %d (string payload %d): error %v", gi, i, idx, err)
+					case r != a+"|"+a || o != c01Reverse(a):
+						note(&wrong, "caller %d call %d (string payload %d, %d bytes): the %d+%d bytes returned are not the answer to this payload (return starts %q)", gi, i, idx, len(a), len(r), len(o), trunc200(r[:min(len(r), 12)]))
+					}
+					continue
+				}
 				a := c01BurstBase + int32(gi*n+i)
 				var o int32
 				r, err := proxy.FIntWithContext(context.Background(), a, &o)
